@@ -3,7 +3,7 @@ From Coq Require Import Reals.
 From Coquelicot Require Import Coquelicot.
 From Coq Require Import List.
 Import ListNotations.
-From SM Require Import Base.Num C04.Model C04.Proofs.
+From SM Require Import Base.Num C04.Model C04.Proofs C04.Integral.
 Open Scope R_scope.
 
 (* First-order error of a midpoint scheme, in discrete form: cells of mass
@@ -45,3 +45,33 @@ Theorem C04_cloud_aligned : forall qx qy dq_par dq_perp r cd sd : R, 0 < qx ->
   /\ c = qx / sqrt (qx * qx + qy * qy) /\ s = qy / sqrt (qx * qx + qy * qy).
 Proof. exact cloud_aligned. Qed.
 Print Assumptions C04_cloud_aligned.
+
+(* ---- from the discrete bound to the documented integral (Coquelicot's Riemann integral) ----
+   Cells [a_j, b_j] of the calculation grid with nodes x_j, resolution density rho >= 0 (continuous), weights
+   m_j = int_cell rho (the "cell masses" of C04_pinhole_cell_mass / C04_ring_mass), intensity f L-Lipschitz, every
+   node within h of every point of its cell, cells contiguous from lo to the last edge:
+       | sum_j m_j f(x_j)  -  int_lo^hi f rho |  <=  L h int_lo^hi rho ,
+   and for the normalised weights m_j / M that the weight matrix holds the error against the renormalised
+   integral is at most L h: the scheme converges to the documented integral in proportion to the grid spacing. *)
+Theorem C04_scheme_vs_integral : forall (f rho : R -> R) (L h : R),
+  (forall u v, Rabs (f u - f v) <= L * Rabs (u - v)) -> 0 <= L -> (forall t, continuous rho t) ->
+  forall cells lo, List.Forall (cell_ok rho h) cells -> contiguous lo cells ->
+  Rabs (scheme f rho cells - RInt (fun t => f t * rho t) lo (last_edge lo cells)) <= L * h * RInt rho lo (last_edge lo cells).
+Proof. exact scheme_vs_integral. Qed.
+Print Assumptions C04_scheme_vs_integral.
+
+Theorem C04_normalised_first_order : forall (f rho : R -> R) (L h : R) cells lo,
+  (forall u v, Rabs (f u - f v) <= L * Rabs (u - v)) -> 0 <= L -> (forall t, continuous rho t) ->
+  List.Forall (cell_ok rho h) cells -> contiguous lo cells ->
+  let M := RInt rho lo (last_edge lo cells) in 0 < M ->
+  Rabs (scheme f rho cells / M - RInt (fun t => f t * rho t) lo (last_edge lo cells) / M) <= L * h.
+Proof. exact normalised_first_order. Qed.
+Print Assumptions C04_normalised_first_order.
+
+(* the premises are satisfiable by the pinhole density (a Gaussian of any non-zero width) *)
+Theorem C04_pinhole_premises : forall q sigma, sigma <> 0 ->
+  (forall t, continuous (gauss q sigma) t) /\
+  let cells := [(q - 1, q, q - 1/2); (q, q + 1, q + 1/2)] in
+  List.Forall (cell_ok (gauss q sigma) (1/2)) cells /\ contiguous (q - 1) cells.
+Proof. intros q sigma Hs. split; [apply gauss_continuous; exact Hs | apply pinhole_cells_ok; exact Hs]. Qed.
+Print Assumptions C04_pinhole_premises.
